@@ -196,10 +196,4 @@ theorem weekday_cmp_eq_iff (a b : RouteWeekday) : a.cmp b = .eq ↔ a = b := by
     cases a; cases b; simp_all
   · rintro rfl; rfl
 
-theorem daysFromCivil_succ_day (y m d : Nat) (hd : 1 ≤ d) :
-    daysFromCivil y m (d + 1) = daysFromCivil y m d + 1 ∨ daysFromCivil y m d = 0 := by
-  unfold daysFromCivil
-  simp only
-  omega
-
 end Rio.TimeWindow
